@@ -9,7 +9,7 @@ from __future__ import annotations
 import ast
 
 from .. import AnalysisError
-from ..astutil import bind_call
+from ..astutil import bind_call, deref
 from ..model import src_of
 
 
@@ -160,6 +160,8 @@ def check_required_operation(ctx, rid):
                 n += 1
                 c = cs.node
                 third = c.args[2] if len(c.args) > 2 else next((k.value for k in c.keywords if k.arg == cr.posparams[2]), None)
+                if isinstance(third, ast.Name):
+                    third = deref(g, third)  # a local holding `format_module.<operation>`
                 good = isinstance(third, ast.Attribute) and third.attr == op and isinstance(third.value, ast.Name)
                 if not good and via_call is not None and isinstance(third, ast.Call) and isinstance(third.func, ast.Name) and third.func.id == "getattr" and len(third.args) == 2 and isinstance(third.args[1], ast.Name):
                     # getattr(format_module, attrname) in a helper: the entry point must bind attrname to its own operation
